@@ -491,6 +491,11 @@ class Key(CryptographicObject):
         Retrieve all of the relevant key wrapping data fields and return them
         as a dictionary.
         """
+        def is_set(v):
+            # 0 and False are values; only None and an empty dictionary
+            # mean "not present".
+            return v is not None and v != {}
+
         key_wrapping_data = {}
         encryption_key_info = {
             'unique_identifier': self._kdw_eki_unique_identifier,
@@ -514,9 +519,10 @@ class Key(CryptographicObject):
                     self._kdw_eki_cp_initial_counter_value
             }
         }
-        if not any(encryption_key_info['cryptographic_parameters'].values()):
+        if not any(map(is_set, encryption_key_info[
+                'cryptographic_parameters'].values())):
             encryption_key_info['cryptographic_parameters'] = {}
-        if not any(encryption_key_info.values()):
+        if not any(map(is_set, encryption_key_info.values())):
             encryption_key_info = {}
 
         mac_sign_key_info = {
@@ -541,9 +547,10 @@ class Key(CryptographicObject):
                     self._kdw_mski_cp_initial_counter_value
             }
         }
-        if not any(mac_sign_key_info['cryptographic_parameters'].values()):
+        if not any(map(is_set, mac_sign_key_info[
+                'cryptographic_parameters'].values())):
             mac_sign_key_info['cryptographic_parameters'] = {}
-        if not any(mac_sign_key_info.values()):
+        if not any(map(is_set, mac_sign_key_info.values())):
             mac_sign_key_info = {}
 
         key_wrapping_data['wrapping_method'] = self._kdw_wrapping_method
@@ -552,7 +559,7 @@ class Key(CryptographicObject):
         key_wrapping_data['mac_signature'] = self._kdw_mac_signature
         key_wrapping_data['iv_counter_nonce'] = self._kdw_iv_counter_nonce
         key_wrapping_data['encoding_option'] = self._kdw_encoding_option
-        if not any(key_wrapping_data.values()):
+        if not any(map(is_set, key_wrapping_data.values())):
             key_wrapping_data = {}
 
         return key_wrapping_data
